@@ -6,6 +6,8 @@
 -/
 import RapidModel.Generated.Translated
 import RapidModel.Minimize
+import RapidModel.Engine
+import RapidModel.Rec
 import RapidProofs.TranslatedDataEq
 import RapidProofs.Reach
 
@@ -421,5 +423,183 @@ theorem tr_minimize (u : UInt64) (cond : UInt64 → Bool) (fuel : Nat) (hf : 130
               (unsetBits cond (len64 (rShift cond 64 ⟨u, probes⟩).best) (rShift cond 64 ⟨u, probes⟩))).probes fuel (by omega)
           simp only [minSt_eta] at e2 e3 e4
           simp only [e1, e2, e3, e4, pure, Except.pure]
+
+/-! ### `compareData` (shrink.go): the shortlex order of the shrinker -/
+
+theorem idx_append_ofNat {α : Type} (pre : List α) (x : α) (rest : List α) (h : pre.length < 2 ^ 62) :
+    Go.idx (pre ++ x :: rest) (Int64.ofNat pre.length) = .ok x := by
+  rw [idx_ofNat _ h]; simp
+
+theorem tr_compareLoop : ∀ (as bs pre pre' : List UInt64) (fT : Nat),
+    pre.length = pre'.length → as.length = bs.length → (pre ++ as).length < 2 ^ 62 → as.length < fT →
+    ∃ i', Translated.compareData_loop1 (pre ++ as) (pre' ++ bs) (Int64.ofNat (pre ++ as).length) fT (Int64.ofNat pre.length) =
+      .ok (i', if cmpLex as bs = 0 then none else some (Int64.ofInt (cmpLex as bs))) := by
+  intro as
+  induction as with
+  | nil =>
+    intro bs pre pre' fT hp hl hn hf
+    obtain ⟨f, rfl⟩ : ∃ f, fT = f + 1 := ⟨fT - 1, by omega⟩
+    have hbs : bs = [] := by cases bs with | nil => rfl | cons _ _ => simp at hl
+    subst hbs
+    have hlt : decide (Int64.ofNat pre.length < Int64.ofNat (pre ++ []).length) = false := by
+      rw [i64_lt_ofNat (by simp at hn; omega) _ hn]; simp
+    exact ⟨Int64.ofNat pre.length, by simp only [Translated.compareData_loop1, hlt, Bool.false_eq_true, if_false, cmpLex, pure, Except.pure, if_true]⟩
+  | cons x as ih =>
+    intro bs pre pre' fT hp hl hn hf
+    obtain ⟨f, rfl⟩ : ∃ f, fT = f + 1 := ⟨fT - 1, by omega⟩
+    cases bs with
+    | nil => simp at hl
+    | cons y bs =>
+      have hpl : pre.length < 2 ^ 62 := by simp at hn; omega
+      have hlt : decide (Int64.ofNat pre.length < Int64.ofNat (pre ++ x :: as).length) = true := by
+        rw [i64_lt_ofNat hpl _ hn]; simp
+      have ia := idx_append_ofNat pre x as hpl
+      have ib : Go.idx (pre' ++ y :: bs) (Int64.ofNat pre.length) = .ok y := by
+        rw [hp]; exact idx_append_ofNat pre' y bs (by omega)
+      simp only [Translated.compareData_loop1, hlt, if_true, ia, ib, bind, Except.bind, pure, Except.pure, cmpLex,
+        i64_ofNat_add_one]
+      by_cases h1 : x < y
+      · exact ⟨_, by simp [h1]; rfl⟩
+      · by_cases h2 : x > y
+        · exact ⟨_, by simp [h1, h2]; rfl⟩
+        · simp only [h1, h2, decide_false, Bool.false_eq_true, if_false]
+          have e1 : pre ++ x :: as = (pre ++ [x]) ++ as := by simp
+          have e2 : pre' ++ y :: bs = (pre' ++ [y]) ++ bs := by simp
+          have e3 : pre.length + 1 = (pre ++ [x]).length := by simp
+          rw [e1, e2, e3]
+          exact ih bs (pre ++ [x]) (pre' ++ [y]) f (by simp [hp]) (by simpa using hl) (by rw [← e1]; exact hn) (by simp at hf; omega)
+
+/-- **`compareData` of /repo is the model's `compareData`** (length first, then lexicographic) -/
+theorem tr_compareData (a b : List UInt64) (fuel : Nat) (ha : a.length < 2 ^ 62) (hb : b.length < 2 ^ 62) (hf : a.length < fuel) :
+    Translated.compareData a b fuel = .ok (Int64.ofInt (compareData a b)) := by
+  have hlt : decide (Go.glen a < Go.glen b) = decide (a.length < b.length) := i64_lt_ofNat ha _ hb
+  have hgt : decide (Go.glen a > Go.glen b) = decide (a.length > b.length) := i64_gt_ofNat ha _ hb
+  simp only [Translated.compareData, compareData]
+  by_cases h1 : a.length < b.length
+  · have e1 : decide (Go.glen a < Go.glen b) = true := by rw [hlt]; simp [h1]
+    simp only [e1, if_true, h1, pure, Except.pure]; rfl
+  · have e1 : decide (Go.glen a < Go.glen b) = false := by rw [hlt]; simp [h1]
+    by_cases h2 : a.length > b.length
+    · have e2 : decide (Go.glen a > Go.glen b) = true := by rw [hgt]; simp [h2]
+      simp only [e1, e2, Bool.false_eq_true, if_false, if_true, h1, h2, pure, Except.pure]; rfl
+    · have e2 : decide (Go.glen a > Go.glen b) = false := by rw [hgt]; simp [h2]
+      simp only [e1, e2, h1, h2, Bool.false_eq_true, if_false]
+      obtain ⟨i', h'⟩ := tr_compareLoop a b [] [] fuel rfl (by omega) (by simpa using ha) hf
+      simp only [List.nil_append, List.length_nil] at h'
+      have h0 : (0 : Int64) = Int64.ofNat 0 := rfl
+      have hg : Go.glen a = Int64.ofNat a.length := rfl
+      rw [h0, hg, h']
+      by_cases hc : cmpLex a b = 0
+      · simp only [hc, if_true, bind, Except.bind, pure, Except.pure]; rfl
+      · simp only [hc, if_false, bind, Except.bind, pure, Except.pure]
+
+/-! ### `without` (shrink.go): cut groups out of the data, last first -/
+
+/-- a group of the source whose bounds are usable positions with `begin ≤ end` -/
+def GOK (g : Translated.groupInfo) : Prop :=
+  0 ≤ g.begin.toInt ∧ g.begin.toInt ≤ g.end_.toInt ∧ g.end_.toInt < 2 ^ 62
+
+theorem sliceTo_nonneg {α : Type} (l : List α) (x : Int64) (h0 : 0 ≤ x.toInt) :
+    Go.sliceTo l x = if x.toInt.toNat ≤ l.length then .ok (l.take x.toInt.toNat) else .error .runtime := by
+  simp only [Go.sliceTo, Go.pos?, h0, true_and]
+  generalize x.toInt.toNat = k
+  by_cases h : k ≤ l.length
+  · simp [h, Nat.lt_succ_of_le h]
+  · have : ¬ k < l.length + 1 := by omega
+    simp [h, this]
+
+theorem sliceFrom_nonneg {α : Type} (l : List α) (x : Int64) (h0 : 0 ≤ x.toInt) :
+    Go.sliceFrom l x = if x.toInt.toNat ≤ l.length then .ok (l.drop x.toInt.toNat) else .error .runtime := by
+  simp only [Go.sliceFrom, Go.pos?, h0, true_and]
+  generalize x.toInt.toNat = k
+  by_cases h : k ≤ l.length
+  · simp [h, Nat.lt_succ_of_le h]
+  · have : ¬ k < l.length + 1 := by omega
+    simp [h, this]
+
+/-- one step: `append(buf[:g.begin], buf[g.end:]...)` against `cut?` -/
+theorem tr_cut (buf : List UInt64) (g : Translated.groupInfo) (hg : GOK g) :
+    ((Go.sliceTo buf g.begin) >>= fun s2 => (Go.sliceFrom buf g.end_) >>= fun s3 => (pure (s2 ++ s3) : Go.M (List UInt64))) =
+      match cut? buf (giOf g).begin (giOf g).end_ with
+      | some d => .ok d
+      | none => .error .runtime := by
+  obtain ⟨h0, hbe, he⟩ := hg
+  have he0 : 0 ≤ g.end_.toInt := by omega
+  simp only [giOf, cut?, sliceTo_nonneg _ _ h0, sliceFrom_nonneg _ _ he0, he0, true_and]
+  have hbe' : g.begin.toInt.toNat ≤ g.end_.toInt.toNat := by omega
+  generalize g.begin.toInt.toNat = b at hbe' ⊢
+  generalize g.end_.toInt.toNat = e at hbe' ⊢
+  by_cases hle : e ≤ buf.length
+  · have hbl : b ≤ buf.length := by omega
+    simp [hle, hbl, hbe', bind, Except.bind, pure, Except.pure]
+  · by_cases hbl : b ≤ buf.length
+    · simp [hle, hbl, bind, Except.bind]
+    · simp [hle, hbl, bind, Except.bind]
+
+theorem tr_withoutLoop (groups : List Translated.groupInfo) (hok : ∀ g ∈ groups, GOK g) : ∀ (n : Nat) (buf : List UInt64) (fT : Nat),
+    n ≤ groups.length → groups.length < 2 ^ 62 → n < fT →
+    Translated.without_loop1 groups fT buf (Int64.ofNat n - 1) =
+      match (groups.take n).reverse.foldlM (fun b g => cut? b (giOf g).begin (giOf g).end_) buf with
+      | some d => .ok (d, Int64.ofNat 0 - 1)
+      | none => .error .runtime := by
+  intro n
+  induction n with
+  | zero =>
+    intro buf fT _ _ hf
+    obtain ⟨f, rfl⟩ : ∃ f, fT = f + 1 := ⟨fT - 1, by omega⟩
+    simp [Translated.without_loop1, i64_ofNat_zero_sub_one_neg, pure, Except.pure]
+  | succ n ih =>
+    intro buf fT hn hl hf
+    obtain ⟨f, rfl⟩ : ∃ f, fT = f + 1 := ⟨fT - 1, by omega⟩
+    have hge : decide (Int64.ofNat n ≥ (0 : Int64)) = true := i64_ofNat_nonneg (by omega)
+    have hlt : n < groups.length := by omega
+    have hidx : Go.idx groups (Int64.ofNat n) = .ok groups[n] := by
+      rw [idx_ofNat _ (by omega)]; simp [hlt]
+    have htake : (groups.take (n + 1)).reverse = groups[n] :: (groups.take n).reverse := by
+      rw [List.take_succ_eq_append_getElem hlt, List.reverse_append]; rfl
+    have hcut := tr_cut buf groups[n] (hok _ (List.getElem_mem hlt))
+    simp only [Translated.without_loop1, i64_ofNat_succ_sub_one, hge, if_true, hidx, bind, Except.bind, htake, List.foldlM_cons]
+    simp only [bind, Except.bind, pure, Except.pure] at hcut
+    cases hc : cut? buf (giOf groups[n]).begin (giOf groups[n]).end_ with
+    | none =>
+      rw [hc] at hcut
+      simp only [Option.bind_eq_bind, Option.bind_none] at hcut ⊢
+      revert hcut
+      cases Go.sliceTo buf groups[n].begin with
+      | error e => intro h; simp only [Except.error.injEq] at h ⊢; exact h
+      | ok s2 =>
+        cases Go.sliceFrom buf groups[n].end_ with
+        | error e => intro h; simp only [Except.error.injEq] at h ⊢; exact h
+        | ok s3 => intro h; simp at h
+    | some d =>
+      rw [hc] at hcut
+      simp only [Option.bind_eq_bind, Option.bind_some] at hcut ⊢
+      revert hcut
+      cases Go.sliceTo buf groups[n].begin with
+      | error e => intro h; simp at h
+      | ok s2 =>
+        cases Go.sliceFrom buf groups[n].end_ with
+        | error e => intro h; simp at h
+        | ok s3 =>
+          intro h
+          simp only [Except.ok.injEq] at h
+          simp only [h]
+          exact ih d f (by omega) hl (by omega)
+
+/-- **`without(data, groups...)` of /repo is the model's `without?`** for groups with usable bounds -/
+theorem tr_without (data : List UInt64) (groups : List Translated.groupInfo) (fuel : Nat) (hok : ∀ g ∈ groups, GOK g)
+    (hl : groups.length < 2 ^ 62) (hf : groups.length < fuel) :
+    Translated.without data groups fuel =
+      match without? data (groups.map giOf) with
+      | some d => .ok d
+      | none => .error .runtime := by
+  have h := tr_withoutLoop groups hok groups.length data fuel (Nat.le_refl _) hl hf
+  have hw : without? data (groups.map giOf) =
+      groups.reverse.foldlM (fun b g => cut? b (giOf g).begin (giOf g).end_) data := by
+    simp only [without?, ← List.map_reverse, List.foldlM_map]
+  simp only [Translated.without, List.nil_append, Go.glen, h, List.take_length, hw]
+  cases groups.reverse.foldlM (fun b g => cut? b (giOf g).begin (giOf g).end_) data with
+  | none => rfl
+  | some d => rfl
 
 end Rapid
